@@ -53,8 +53,8 @@ class GuardRun:
                 break
             bad = runner.attribute_errors(self.ws, errors)
             if not bad:
-                raise RuntimeError("cargo build failed and no error could be attributed to a declaration:\n"
-                                   + stderr[-3000:])
+                raise RuntimeError("cargo build failed and no error could be attributed to a declaration: "
+                                   + " ;; ".join(str(getattr(e_, "message", e_))[:400] for e_ in errors[:4]) + "\n" + stderr[-2000:])
             for did, msgs in bad.items():
                 dropped[did] = msgs
             live = [d for d in live if d.id not in dropped]
